@@ -555,6 +555,7 @@ def r06_8(ctx):
         return term[0] == "discr" and meaning == "None" and mir.has(term[1], is_remote) and \
             not mir.has(term[1], lambda x: x[0] == "field" and x[2] == "username")
     gl = core.guard_edges(b, local_half)
+    bare = []
     # `let for_us = match username { Some(u) => <u's first half> == local_ufrag, None => false }; if !for_us .. return`:
     # the comparison is stored in a temporary; its true edge is the guard when every definition of the temporary is either
     # the constant false or such a comparison
@@ -578,6 +579,12 @@ def r06_8(ctx):
             if d[0] == "call" and "PartialEq" in d[1] and d[1].endswith("::eq") and \
                     mir.has(d, lambda x: (x[0] == "var" and x[1] == "local_ufrag") or (x[0] == "field" and x[2] == "local_parameters")) and \
                     mir.has(d, lambda x: x[0] == "field" and x[2] == "username"):
+                # the compared half has to come from a split that REQUIRES the ':' (split_once): `split(':').next()` also
+                # accepts a bare local fragment, which is not an ICE username - and passes while the peer's is unknown
+                if mir.has(d, lambda x: x[0] == "call" and x[1].endswith("::split_once")):
+                    some_cmp = True
+                    continue
+                bare.append(sb)
                 some_cmp = True
                 continue
             ok = False
@@ -596,6 +603,12 @@ def r06_8(ctx):
             else:
                 r.violate(REQ, "username:%s-half:%s" % (half, site), b.where(bi), "ICE state changed by a Binding request whose USERNAME is not this session's: " + msg)
     r.need("state effect sites of inbound requests", n, 8)
+    if bare:
+        r.violate(REQ, "username:bare-fragment", b.where(bare[0]),
+                  "the local half is taken with a split that does not require the ':' separator: a USERNAME consisting of the local fragment "
+                  "alone passes (and, while the peer's parameters are unknown, nothing else looks at it)")
+    else:
+        r.ok({"username": "split_once(':') - both halves must be present"})
     return r
 
 
